@@ -204,7 +204,8 @@ Section Fan.
           assert (Hobj' : forall to, In to (r0 :: rem') -> exists y0, to = RObj y0).
           { intros to Hin. apply Hobj. apply (In_remove_nth rem k). rewrite Er. exact Hin. }
           assert (Hlen' : length (r0 :: rem') <= npush t r) by lia.
-          destruct (IH (step s (EvPush t k)) (r0 :: rem') Hr' (conj ltac:(discriminate) (or_intror E)) Hobj' He Hlen')
+          assert (Hph' : in_range (step s (EvPush t k)) (r0 :: rem')) by (split; [discriminate|right; exact E]).
+          destruct (IH (step s (EvPush t k)) (r0 :: rem') Hr' Hph' Hobj' He Hlen')
             as (evs1 & evs2 & order & E' & Hpo & Hn & Htp & Hpd).
           exists (EvPush t k :: evs1), evs2, (RObj y :: order). split; [rewrite E'; reflexivity|].
           split; [eapply pick_cons; [exact Hk|rewrite Er; exact Hpo]|].
@@ -238,12 +239,123 @@ Proof.
   - rewrite map_length. exact Hlen.
   - rewrite map_length in Hn. pose proof (pick_order_perm _ _ Hpo) as Hperm.
     destruct (Permutation_map_inv _ _ (Permutation_sym Hperm)) as (order' & Eo & Hp').
-    exists evs1, evs2, order'. split; [exact E|]. split; [apply Permutation_sym; exact Hp'|]. split; [exact Hn|].
+    exists evs1, evs2, order'. split; [exact E|]. split; [exact Hp'|]. split; [exact Hn|].
     assert (Htp' : tpushes t evs1 s = map (fun a => (a, {| e_sys := sys; e_sender := sender; e_msg := m |})) order').
     { rewrite Htp, Eo, map_map. reflexivity. }
     split; [exact Htp'|]. split; [|exact Hpd].
     rewrite E, tpushes_app, Htp'. rewrite firstn_app.
     assert (Hl : length (map (fun a => (a, {| e_sys := sys; e_sender := sender; e_msg := m |})) order') = length l).
-    { rewrite map_length. symmetry. apply Permutation_length. apply Permutation_sym. exact Hp'. }
+    { rewrite map_length. symmetry. apply Permutation_length. exact Hp'. }
     rewrite <- Hl at 1. rewrite firstn_all, Hl, Nat.sub_diag. cbn [firstn]. apply app_nil_r.
+Qed.
+
+(* ------------------------------------------------------------------ (4) one publisher's events in a subscriber's user queue *)
+
+Lemma upushed_pushed_run a evs : forall s, map snd (upushed a evs s) = pushed_run a false evs s.
+Proof.
+  induction evs as [|ev r IH]; intros s; [reflexivity|]. cbn [upushed pushed_run]. rewrite map_app, IH. f_equal.
+  unfold upushed1, pushed_to. destruct ev; try reflexivity. destruct (push_of s t choice) as [[tgt e]|]; [|reflexivity].
+  destruct (Nat.eqb tgt a), (e_sys e); reflexivity.
+Qed.
+
+(** the user queue is FIFO: what the consumer has taken out, followed by what is still queued, is what was queued
+    followed by what was inserted, in insertion order (ProofsMailInv.queue_run) *)
+Lemma user_fifo a evs s :
+  err (run_events evs s) = false ->
+  popped_run a false evs s ++ uq_at (run_events evs s) a = uq_at s a ++ map snd (upushed a evs s).
+Proof. intros He. rewrite upushed_pushed_run. exact (queue_run false a evs s He). Qed.
+
+Lemma upushed_thread_filter t a evs : forall s,
+  map snd (filter (fun q : tid * envelope => tid_eqb (fst q) t) (upushed a evs s)) =
+  map snd (filter (fun p : aid * envelope => Nat.eqb (fst p) a && negb (e_sys (snd p))) (tpushes t evs s)).
+Proof.
+  induction evs as [|ev r IH]; intros s; [reflexivity|]. cbn [upushed tpushes]. rewrite !filter_app, !map_app, IH. f_equal.
+  unfold upushed1. destruct ev; try reflexivity.
+  destruct (tid_eqb t0 t) eqn:Et.
+  - apply tid_eqb_eq in Et. subst t0. destruct (push_of s t choice) as [[tgt e]|]; [|reflexivity].
+    cbn [filter fst snd]. destruct (Nat.eqb tgt a && negb (e_sys e)); [|reflexivity]. cbn [filter fst]. rewrite tid_eqb_refl. reflexivity.
+  - destruct (push_of s t0 choice) as [[tgt e]|]; [|reflexivity].
+    destruct (Nat.eqb tgt a && negb (e_sys e)); [|reflexivity]. cbn [filter fst]. rewrite Et. reflexivity.
+Qed.
+
+Lemma filter_map_none (env : envelope) a (l : list aid) :
+  ~ In a l -> filter (fun p : aid * envelope => Nat.eqb (fst p) a && negb (e_sys (snd p))) (map (fun y => (y, env)) l) = [].
+Proof.
+  induction l as [|z l IH]; intros Hn; [reflexivity|]. cbn [map filter fst snd].
+  destruct (Nat.eqb_spec z a) as [->|Nz]; [exfalso; apply Hn; left; reflexivity|]. cbn [andb]. apply IH. intros Hin. apply Hn. right. exact Hin.
+Qed.
+
+Lemma filter_map_once (env : envelope) a (l : list aid) :
+  NoDup l -> In a l -> e_sys env = false ->
+  filter (fun p : aid * envelope => Nat.eqb (fst p) a && negb (e_sys (snd p))) (map (fun y => (y, env)) l) = [(a, env)].
+Proof.
+  intros Hn Hin Hs. induction l as [|y l IH]; [destruct Hin|]. inversion Hn as [|y' l' Hy Hl]; subst. cbn [map filter fst snd]. rewrite Hs. cbn [negb].
+  destruct (Nat.eqb_spec y a) as [->|Ne]; cbn [andb].
+  - rewrite (filter_map_none env a l Hy). reflexivity.
+  - destruct Hin as [E|Hin]; [congruence|]. apply IH; assumption.
+Qed.
+
+Lemma filter_hd_split {A} (P : A -> bool) (l : list A) x r :
+  filter P l = x :: r -> exists l1 l2, l = l1 ++ x :: l2 /\ (forall y, In y l1 -> P y = false).
+Proof.
+  induction l as [|y l IH]; cbn [filter]; [discriminate|]. destruct (P y) eqn:E.
+  - intros H. inversion H; subst. exists [], l. split; [reflexivity|intros z []].
+  - intros H. destruct (IH H) as (l1 & l2 & -> & Hl). exists (y :: l1), l2. split; [reflexivity|].
+    intros z [<-|Hz]; [exact E|apply Hl; exact Hz].
+Qed.
+
+(** (4), insertion order: a subscriber [a] of the snapshot gets this event as the FIRST thing the publishing thread
+    puts into its user queue from now on - whatever the thread publishes (or tells) later is behind it *)
+Lemma publisher_first t sender m rest l a evs s :
+  reachable s -> pend_of s t = IEnqAny false (map RObj l) sender m :: rest -> NoDup l -> In a l ->
+  err (run_events evs s) = false -> length l <= npush t evs ->
+  exists l1 l2, upushed a evs s = l1 ++ (t, {| e_sys := false; e_sender := sender; e_msg := m |}) :: l2 /\
+                (forall e, ~ In (t, e) l1).
+Proof.
+  intros Hr Hp Hn Hin He Hlen.
+  assert (Hne : l <> []) by (intros ->; destruct Hin).
+  destruct (fanout_completes t false sender m rest l evs s Hr Hp Hne He Hlen) as (evs1 & evs2 & order & E & Hperm & _ & Htp & _ & _).
+  set (env := {| e_sys := false; e_sender := sender; e_msg := m |}) in *.
+  pose proof (upushed_thread_filter t a evs s) as Hf. rewrite E in Hf at 2. rewrite tpushes_app, Htp, filter_app in Hf.
+  rewrite (filter_map_once env a order (Permutation_NoDup Hperm Hn) (Permutation_in a Hperm Hin) eq_refl) in Hf.
+  cbn [app map snd] in Hf.
+  destruct (filter (fun q : tid * envelope => tid_eqb (fst q) t) (upushed a evs s)) as [|[t' e'] fr] eqn:Ef; [discriminate Hf|].
+  cbn [map snd] in Hf. inversion Hf; subst e'.
+  assert (Ht : t' = t).
+  { assert (Hi : In (t', env) (filter (fun q : tid * envelope => tid_eqb (fst q) t) (upushed a evs s))) by (rewrite Ef; left; reflexivity).
+    apply filter_In in Hi. destruct Hi as [_ Hi]. apply tid_eqb_eq in Hi. exact Hi. }
+  subst t'. destruct (filter_hd_split _ _ _ _ Ef) as (l1 & l2 & El & Hl1). exists l1, l2. split; [exact El|].
+  intros e Hi. specialize (Hl1 _ Hi). cbn [fst] in Hl1. rewrite tid_eqb_refl in Hl1. discriminate.
+Qed.
+
+(* ------------------------------------------------------------------ the snapshot *)
+
+(** Publish, inside the atomic loop: arriving at [IPub ty pl] with a non-empty table of [ty], the loop leaves the
+    table as it is, puts the range over the current subscribers at the head of the thread's list and stops there
+    (the queue insertion is a scheduling point): the state it stops in is "just published" *)
+Lemma publish_snapshot f s t ty pl rest x :
+  pend_of s t = IPub ty pl :: rest -> get s (self_of t) = Some x -> subscribers s ty <> [] ->
+  err (run_atomic (S (S f)) s t) = false ->
+  subs (run_atomic (S (S f)) s t) = subs s /\
+  pend_of (run_atomic (S (S f)) s t) t = IEnqAny false (map (fun p => RObj (snd p)) (subscribers s ty)) root_ref (MEvent ty pl) :: rest /\
+  just_published (run_atomic (S (S f)) s t) t ty pl rest.
+Proof.
+  intros Hp Hg Hne He.
+  rewrite (run_atomic_exec _ _ _ _ _ Hp eq_refl eq_refl) in *. cbv zeta in *.
+  assert (E : forall fu, (let (s1, front) := exec1 (set_pend s t rest) t (held_of (set_pend s t rest) t) (IPub ty pl) in
+               run_atomic fu (set_pend s1 t (front ++ pend_of s1 t)) t) = run_atomic fu (astep s t (IPub ty pl) rest) t).
+  { intros fu. unfold astep. destruct (exec1 _ _ _ _). reflexivity. }
+  rewrite E in *. rewrite (astep_IPub s t ty pl rest x Hg) in *.
+  destruct (subscribers s ty) as [|p0 l0] eqn:Hsub; [congruence|]. cbn [app] in *.
+  assert (He0 : err (set_pend s t rest) = false).
+  { destruct (err (set_pend s t rest)) eqn:E0; [|reflexivity]. exfalso.
+    rewrite err_mono_run_atomic in He; [discriminate|]. apply set_pend_err_mono. exact E0. }
+  rewrite (pend_of_set_pend_ok _ _ _ He0) in *.
+  match type of He with err (run_atomic _ ?s2 _) = false => set (s2' := s2) in * end.
+  assert (He2 : err s2' = false) by (destruct (err s2') eqn:E2; [rewrite (err_mono_run_atomic _ _ _ E2) in He; discriminate|reflexivity]).
+  pose proof (pend_of_set_pend_ok _ _ _ He2) as Hp2. fold s2' in Hp2.
+  rewrite (ProofsMailBase.run_atomic_yield f s2' t _ _ Hp2 eq_refl).
+  assert (Hs2 : subs s2' = subs s) by (unfold s2'; rewrite !set_pend_subs; reflexivity).
+  split; [exact Hs2|]. split; [exact Hp2|].
+  unfold just_published, subscribers. rewrite Hs2. fold (subscribers s ty). rewrite Hsub. split; [discriminate|exact Hp2].
 Qed.
